@@ -112,7 +112,7 @@ type ContractSet struct {
 
 var recoveredRe = regexp.MustCompile(`\brecovered\b`)
 
-var clauseRe = regexp.MustCompile(`^(requires|assigns_abrupt|ensures_panic|ensures_abrupt_assumed|ensures_abrupt|ensures_assumed|ensures|assigns|safe|pure|trusted|inline|uninterpreted|overflow-checked|wrap64|nopanic|maypanic|script|sweep-callers|ghost|capture|exitvars|timeout|props|replay_assume|replay|observe)\b\s*(.*)$`)
+var clauseRe = regexp.MustCompile(`^(requires|assigns_abrupt|ensures_panic|ensures_abrupt_assumed|ensures_abrupt|ensures_assumed|ensures|assigns|safe|bounds|pure|trusted|inline|uninterpreted|overflow-checked|wrap64|nopanic|maypanic|script|sweep-callers|ghost|capture|exitvars|timeout|props|replay_assume|replay|observe)\b\s*(.*)$`)
 var labelRe = regexp.MustCompile(`\s+\[([A-Za-z0-9_:.#+\-]+)\]\s*$`)
 
 // parseContractFile reads one contract file.
